@@ -240,8 +240,13 @@ def install_env(ctx, eng, faults=True, fail_only=None):
             there = fs_fact("exists" if follow else "lexists", pn)
             m = OpaqueV("std::fs::Metadata", "%s_of_%s" % ("stat" if follow else "lstat", re.sub(r"\W+", "_", pn)), {"path": pn, "follow": follow})
             nm = "metadata" if follow else "symlink_metadata"
-            return [Outcome(ok(m), [there], events=[Event("Path::" + nm, [p], "ok")]),
-                    Outcome(err("std::io::Error"), events=[Event("Path::" + nm, [p], "err")])]
+            ioerr = lambda kind: AggV("Result", 1, [OpaqueV("std::io::Error", "%s_error_%s_%d" % (nm, kind, next(eng.fresh_ids)), {"kind": kind})], "Err")
+            # ENOENT exactly when there is nothing to stat; any other failure may strike regardless
+            outs = [Outcome(ok(m), [there], events=[Event("Path::" + nm, [p], "ok")]),
+                    Outcome(ioerr("NotFound"), [z3.Not(there)], events=[Event("Path::" + nm, [p], "absent")])]
+            if env.may_fail("Path::" + nm):
+                outs.append(Outcome(ioerr("Other"), events=[Event("Path::" + nm, [p], "err")]))
+            return outs
         return h
     S(r"^(std::path::)?Path::metadata$|^(std::fs::)?metadata::<", s_pmeta(True))
     S(r"^(std::path::)?Path::symlink_metadata$|^(std::fs::)?symlink_metadata::<", s_pmeta(False))
